@@ -1051,14 +1051,14 @@ def primitive_facts(prog):
                 continue
             f = fs[0]
             try:
-                res[name] = _prim_check(f, p, side)
+                res[name] = _prim_check(f, p, side, prog)
             except (IndexError, KeyError, TypeError) as e:
                 res[name] = (None, 'construct outside the recognised forms: %r' % e)
             res[name] = res[name] + (f,)
     return res
 
 
-def _prim_check(f, p, side):
+def _prim_check(f, p, side, prog=None):
     params = {x.get('name'): x['id'] for x in f.params}
     pid = [x['id'] for x in f.params if (x.get('type') or '').strip().endswith('*')]
     if len(pid) != 1:
@@ -1139,9 +1139,17 @@ def _prim_check(f, p, side):
             return (True, 'two int32 halves, shifts %s' % shifts)
         # decode: targets of the two tie-assignments in order, then combination
         targets = []
+        chain = []      # (cursor read, cursor produced) per structured binding
         for n in walk(f.body):
             if n.get('kind') == 'CallExpr' and (strip(children(n)[0]).get('referencedDecl') or {}).get('name') == 'tie':
                 targets.append(_refid(children(n)[1]))
+            elif n.get('kind') == 'DecompositionDecl':
+                # auto [half, next] = decode_int32_xx(cursor);
+                b = [x for x in children(n) if x.get('kind') == 'BindingDecl']
+                mine = [c for c in calls if any(c[1] is y for y in walk(n))]
+                if len(b) == 2 and mine:
+                    targets.append(b[0].get('id'))
+                    chain.append((_refid(children(mine[0][1])[1]), b[1].get('id')))
         terms = []
         ok = False
         for vd in [n for n in walk(f.body) if n.get('kind') == 'VarDecl']:
@@ -1153,6 +1161,12 @@ def _prim_check(f, p, side):
                     break
         if not ok or len(targets) != 2:
             return (None, 'combination of the two halves not recognised')
+        if chain:
+            # each half is read where the previous read ended, and the cursor after the second is returned
+            rets = [_refid(y) for n in walk(f.body) if n.get('kind') == 'ReturnStmt' for y in walk(n)
+                    if y.get('kind') == 'DeclRefExpr']
+            if len(chain) != 2 or chain[0][0] != pid or chain[1][0] != chain[0][1] or chain[1][1] not in rets:
+                return (False, 'the two halves are not read one after the other from the cursor that is returned')
         m = dict(terms)
         got = [m.get(targets[0]), m.get(targets[1])]
         if got != want:
@@ -1163,10 +1177,25 @@ def _prim_check(f, p, side):
         calls = _calls(f, side + '_')
         if [c[0] for c in calls] != [sub]:
             return (False, 'expected one call to %s, found %s' % (sub, [c[0] for c in calls]))
-        mem = [n for n in walk(f.body) if n.get('kind') == 'CallExpr'
+        # the bit pattern is carried over by one memcpy of 8 bytes, in the primitive itself or in a
+        # repository helper it calls for the conversion
+        bodies = [f.body]
+        if prog is not None:
+            for n in walk(f.body):
+                if n.get('kind') == 'CallExpr' and not any(n is c[1] for c in calls):
+                    ref = strip(children(n)[0]).get('referencedDecl') or {}
+                    d = f.tu.ids.get(ref.get('id'))
+                    for t in (prog.definitions_for(f.tu, d) if d is not None else []):
+                        if t.body is not None and prog.in_repo(t.file):
+                            bodies.append(t.body)
+        mem = [n for b in bodies for n in walk(b) if n.get('kind') == 'CallExpr'
                and (strip(children(n)[0]).get('referencedDecl') or {}).get('name') == 'memcpy']
         if len(mem) != 1 or _int(children(mem[0])[3]) != 8:
             return (False, 'expected one memcpy of 8 bytes between the double and the int64')
+        types = sorted(re.sub(r'\s*\*$', '', (strip(a, explicit=True).get('type') or '').replace('const ', '')).strip()
+                       for a in children(mem[0])[1:3])
+        if not (types[0] == 'double' and types[1] in ('int64_t', 'long', 'long long')):
+            return (False, 'the memcpy is not between a double and an int64 (%s)' % types)
         return (True, 'bit pattern via memcpy(8) and %s' % sub)
     return (None, 'unknown primitive')
 
